@@ -603,6 +603,7 @@ func checkC10(c *core.Ctx, r *core.Report) {
 		r.Floor("ORDER", "call sites of initNewDpWal", n, 3)
 
 		checkWalAfterBlockNumber(c, r, sm)
+		checkNoEmptyNameBlock(c, r)
 	}
 
 	// ---------------------------------------------------------------- (7) the WAL files of a block are replayed in index order
@@ -1170,4 +1171,78 @@ func checkWalAfterBlockNumber(c *core.Ctx, r *core.Report, sm *summaries) {
 		}
 	}
 	r.Floor("ORDER", "WAL creations in functions that change the block number", m, 1)
+}
+
+// checkNoEmptyNameBlock — (9): the metric-name WAL reader reports a block with zero names exactly like the end of the
+// log (Next returns nil, nil), so an empty block in the middle of the file hides every later completed append from
+// recovery.  The writer must therefore never append an empty list: every Wal.Append of a segment's pending metric
+// names lies where the length of that list is known to be non-zero.
+func checkNoEmptyNameBlock(c *core.Ctx, r *core.Report) {
+	namesF := c.Field(pkgMetrics, "mNameWalState.metricsNames")
+	appendFn := c.Obj(pkgWal, "Wal.Append")
+	n := 0
+	for _, fn := range c.RepoFunctions() {
+		if core.FnPkgPath(fn) != core.ModPath+"/"+pkgMetrics {
+			continue
+		}
+		for i, call := range callsTo(fn, appendFn) {
+			arg := call.Call.Args[len(call.Call.Args)-1]
+			if mi, ok := arg.(*ssa.MakeInterface); ok {
+				arg = mi.X
+			}
+			ld, ok := arg.(*ssa.UnOp)
+			if !ok {
+				continue
+			}
+			fa, ok := ld.X.(*ssa.FieldAddr)
+			if !ok || core.FieldOfAddr(fa) != namesF {
+				continue
+			}
+			n++
+			nonEmpty := false
+			for _, b := range fn.Blocks {
+				for _, in := range b.Instrs {
+					cmp, ok := in.(*ssa.BinOp)
+					if !ok {
+						continue
+					}
+					lc, ok := cmp.X.(*ssa.Call)
+					if !ok {
+						continue
+					}
+					bi, ok := lc.Call.Value.(*ssa.Builtin)
+					if !ok || bi.Name() != "len" {
+						continue
+					}
+					l2, ok := lc.Call.Args[0].(*ssa.UnOp)
+					if !ok {
+						continue
+					}
+					fa2, ok := l2.X.(*ssa.FieldAddr)
+					if !ok || core.FieldOfAddr(fa2) != namesF {
+						continue
+					}
+					k, ok := core.ConstIntValue(cmp.Y)
+					if !ok {
+						continue
+					}
+					known := core.BoolKnownAt(cmp, call.Block())
+					switch cmp.Op {
+					case token.GTR:
+						nonEmpty = nonEmpty || (known == core.Yes && k >= 0)
+					case token.NEQ:
+						nonEmpty = nonEmpty || (known == core.Yes && k == 0)
+					case token.EQL:
+						nonEmpty = nonEmpty || (known == core.No && k == 0)
+					case token.GEQ:
+						nonEmpty = nonEmpty || (known == core.Yes && k >= 1)
+					}
+				}
+			}
+			r.Check(nonEmpty, "GUARD", fmt.Sprintf("%s:metric-name-append#%d-is-never-empty", shortFn(fn), i+1), c.Pos(call.Pos()),
+				"the pending name list is known to be non-empty where it is appended",
+				"the pending metric names are appended to the name WAL without knowing that there are any: an empty block is indistinguishable from the end of the log for the reader, so after a restart every name logged after the empty block is never replayed (and the file is then deleted)")
+		}
+	}
+	r.Floor("GUARD", "appends of pending metric names to the name WAL", n, 1)
 }
